@@ -6,7 +6,7 @@ cd "$(dirname "$0")/.."
 rc=0
 for c in $checks; do
   s=$(date +%s)
-  out=$(VERIF_SEED=$seed ./vcheck $c --tier $tier 2>&1 | grep -E "^C[0-9]+ tier|VIOLATION|KNOWN-FINDING|HARNESS-FAULT|NONREPRODUCIBLE|Traceback" | cut -c1-260)
+  out=$(VERIF_SEED=$seed ./vcheck $c --tier $tier 2>&1 | tr "\r" "\n" | grep -E "^C[0-9]+ tier|VIOLATION|KNOWN-FINDING|HARNESS-FAULT|NONREPRODUCIBLE|Traceback" | cut -c1-260)
   e=$?
   echo "== $c seed=$seed tier=$tier $(( $(date +%s) - s ))s"; echo "$out"
   echo "$out" | grep -q -E "VIOLATION|HARNESS-FAULT|NONREPRODUCIBLE|Traceback" && rc=1
